@@ -811,6 +811,24 @@ class Interp:
             return Struct(segs[-1], [])
         if sp == 'log::STATIC_MAX_LEVEL':
             return bv(5, 64)
+        mm = re.match(r'^(?:std|core)::(u8|u16|u32|u64|usize|i8|i16|i32|i64|isize)::(MAX|MIN)$', sp) or \
+            re.match(r'^(u8|u16|u32|u64|usize|i8|i16|i32|i64|isize)::(MAX|MIN)$', sp)
+        if mm:
+            t, which = mm.group(1), mm.group(2)
+            w = INT_WIDTH[t]
+            if t in SIGNED:
+                val = (1 << (w - 1)) - 1 if which == 'MAX' else (1 << (w - 1))
+            else:
+                val = (1 << w) - 1 if which == 'MAX' else 0
+            return bv(val, w)
+        # named constant with a MIR body
+        last = sp.split('::')[-1]
+        for key in (sp, frame.fn.crate + '::' + sp, last, frame.fn.crate + '::' + last):
+            f = self.prog.fns.get(key)
+            if f is not None and f.kind in ('const', 'static'):
+                if key not in self.const_cache:
+                    self.const_cache[key] = self.call_mir(f, [])
+                return copy_val(self.const_cache[key])
         # function item
         return FnItem(p)
 
